@@ -1,6 +1,7 @@
 package sym
 
 import (
+	"golang.org/x/tools/go/ssa"
 	"fmt"
 	"go/token"
 	"go/types"
@@ -185,7 +186,9 @@ func (m *Machine) schedPoint() {
 	c := m.decideN("sched", len(rs), nil)
 	if rs[c] != m.cur {
 		m.preempts++
+		m.addSite(m.repoSite(token.NoPos))
 		m.switchTo(rs[c])
+		m.addSite(m.repoSite(token.NoPos))
 	}
 }
 
@@ -357,10 +360,12 @@ func (m *Machine) chanSend(fr *frame, c *Chan, v Value, pos token.Pos) {
 	}
 	if len(c.buf) < c.cap {
 		c.buf = append(c.buf, copyVal(v))
+		m.notifyAll()
 		return
 	}
 	sw := &sendWait{g: m.cur, v: copyVal(v)}
 	c.sendq = append(c.sendq, sw)
+	m.notifyAll() // select statements waiting on this channel re-evaluate
 	m.block("chan send at " + m.pos(pos))
 	if c.closed && sw.g != nil {
 		panic(targetPanic{v: Iface{t: m.P.runtimeErrorString, v: MkStr("send on closed channel")}, pos: m.pos(pos)})
@@ -400,6 +405,7 @@ func (m *Machine) chanRecv(fr *frame, c *Chan, pos token.Pos) (Value, bool) {
 	}
 	g := m.cur
 	c.recvq = append(c.recvq, g)
+	m.notifyAll()
 	m.block("chan receive at " + m.pos(pos))
 	return g.recvVal, g.recvOK
 }
@@ -413,6 +419,7 @@ func (m *Machine) chanClose(fr *frame, c *Chan, pos token.Pos) {
 	}
 	m.hbRelease(c)
 	c.closed = true
+	m.notifyAll()
 	for _, r := range c.recvq {
 		r.recvVal = zero(c.elem)
 		r.recvOK = false
@@ -534,6 +541,7 @@ func (v vclock) join(o vclock) {
 type epoch struct {
 	g, c int
 	pos  string
+	site string
 }
 
 type cellInfo struct {
@@ -547,6 +555,7 @@ type locksetState struct {
 	syncs map[interface{}]vclock // release clocks of sync objects
 	races []string
 	seen  map[string]bool
+	sites []string // statements of the code under test forming the reported pairs
 }
 
 func newLockset() *locksetState {
@@ -600,9 +609,19 @@ func (ls *locksetState) access(m *Machine, cell interface{}, write bool, pos tok
 		ls.cells[cell] = ci
 	}
 	where := ""
+	site := m.repoSite(pos)
 	report := func(kind string, other epoch) {
 		if where == "" {
 			where = m.pos(pos)
+		}
+		for _, s := range []string{site, other.site} {
+			dup := s == ""
+			for _, x := range ls.sites {
+				dup = dup || x == s
+			}
+			if !dup && len(ls.sites) < 8 {
+				ls.sites = append(ls.sites, s)
+			}
 		}
 		msg := kind + " at " + where + " (goroutine " + fmt.Sprint(g) + ") is not ordered after the " + other.pos + " (goroutine " + fmt.Sprint(other.g) + ")"
 		if !ls.seen[msg] {
@@ -612,22 +631,22 @@ func (ls *locksetState) access(m *Machine, cell interface{}, write bool, pos tok
 	}
 	if ci.hasW && ci.w.g != g && ci.w.c > vc[ci.w.g] {
 		if write {
-			report("write", epoch{ci.w.g, ci.w.c, "write at " + ci.w.pos})
+			report("write", epoch{ci.w.g, ci.w.c, "write at " + ci.w.pos, ci.w.site})
 		} else {
-			report("read", epoch{ci.w.g, ci.w.c, "write at " + ci.w.pos})
+			report("read", epoch{ci.w.g, ci.w.c, "write at " + ci.w.pos, ci.w.site})
 		}
 	}
 	if write {
 		for rg, r := range ci.reads {
 			if rg != g && r.c > vc[rg] {
-				report("write", epoch{rg, r.c, "read at " + r.pos})
+				report("write", epoch{rg, r.c, "read at " + r.pos, r.site})
 			}
 		}
-		ci.w = epoch{g, vc[g], m.pos(pos)}
+		ci.w = epoch{g, vc[g], m.pos(pos), site}
 		ci.hasW = true
 		ci.reads = map[int]epoch{}
 	} else {
-		ci.reads[g] = epoch{g, vc[g], m.pos(pos)}
+		ci.reads[g] = epoch{g, vc[g], m.pos(pos), site}
 	}
 }
 
@@ -639,4 +658,73 @@ func (ls *locksetState) candidates() []string {
 		out = out[:4]
 	}
 	return out
+}
+
+// selectOp implements the select statement: a ready case is taken (in schedule mode the
+// choice among several ready cases is a decision), otherwise default, otherwise the goroutine
+// waits until a case becomes ready.
+func (m *Machine) selectOp(fr *frame, instr *ssa.Select) Value {
+	type st struct {
+		c    *Chan
+		send bool
+		v    Value
+	}
+	var states []st
+	for _, s := range instr.States {
+		c, _ := fr.get(s.Chan).(*Chan)
+		x := st{c: c, send: s.Dir == types.SendOnly}
+		if x.send {
+			x.v = fr.get(s.Send)
+		}
+		states = append(states, x)
+	}
+	readyIdx := func() []int {
+		var r []int
+		for i, s := range states {
+			if s.c == nil {
+				continue
+			}
+			if s.send {
+				if s.c.closed || len(s.c.recvq) > 0 || len(s.c.buf) < s.c.cap {
+					r = append(r, i)
+				}
+			} else if len(s.c.buf) > 0 || len(s.c.sendq) > 0 || s.c.closed {
+				r = append(r, i)
+			}
+		}
+		return r
+	}
+	result := func(chosen int, recv Value, ok bool) Value {
+		t := Tuple{K(64, uint64(int64(chosen))), KB(ok)}
+		for i, s := range instr.States {
+			if s.Dir == types.RecvOnly {
+				if i == chosen && recv != nil {
+					t = append(t, recv)
+				} else {
+					t = append(t, zero(s.Chan.Type().Underlying().(*types.Chan).Elem()))
+				}
+			}
+		}
+		return t
+	}
+	for {
+		m.schedPoint()
+		if r := readyIdx(); len(r) > 0 {
+			i := r[0]
+			if m.schedOn && len(r) > 1 {
+				i = r[m.decideN("select", len(r), nil)]
+			}
+			if states[i].send {
+				m.chanSend(fr, states[i].c, states[i].v, instr.Pos())
+				return result(i, nil, false)
+			}
+			v, ok := m.chanRecv(fr, states[i].c, instr.Pos())
+			return result(i, v, ok)
+		}
+		if !instr.Blocking {
+			return result(-1, nil, false)
+		}
+		m.condWaiters = append(m.condWaiters, m.cur)
+		m.block("select at " + m.pos(instr.Pos()))
+	}
 }
